@@ -222,6 +222,8 @@ theorem bond_inv {cfg : Cfg} {s : St} {e : Env} {asset : AssetRef} {x : Nat} {fu
       · cases h
       split at h
       · cases h
+      split at h
+      · cases h
       · cases h
       next nb hnb =>
         split at h
@@ -232,7 +234,7 @@ theorem bond_inv {cfg : Cfg} {s : St} {e : Env} {asset : AssetRef} {x : Nat} {fu
           · cases h
           · cases h
           next nbal hbal =>
-            rename_i h3 h2 _ h1 h0 _ _ _
+            rename_i h3 h2 _ h1 hfd h0 _ _ _
             obtain ⟨hb1, hb2⟩ := padd_inv hbal
             simp only [not_or, ne_eq, not_not, Bool.not_eq_true] at h1 h0
             obtain ⟨rfl, rfl, hw⟩ := h1
@@ -262,6 +264,8 @@ theorem unbond_inv {s : St} {e : Env} {asset : AssetRef} {x : Nat} {s' : St}
     · cases h
     split at h
     · cases h
+    split at h
+    · cases h
     next b hb =>
       split at h
       · cases h
@@ -277,7 +281,7 @@ theorem unbond_inv {s : St} {e : Env} {asset : AssetRef} {x : Nat} {s' : St}
           · cases h
           · cases h
           next ng hg =>
-            rename_i h3 _ h2 _ h1 _ _ _
+            rename_i h3 _ hfd h2 _ h1 _ _ _
             cases h
             exact ⟨d, b, nb, slash, nu, ng, rfl, h3, by simpa using h2, hb, by omega, hl, hu, hg, rfl⟩
 
@@ -478,12 +482,180 @@ theorem sumIf_filter_none (p q : UnbRec → Bool) (l : List UnbRec) (hpq : ∀ r
       exact ih
 
 
+
+theorem setFd_inv {cfg : Cfg} {s : St} {e : Env} {s' : St} (h : setFd cfg s e = .ok s') :
+    e.sender = cfg.owner ∧ s' = { s with fdSet := true } := by
+  unfold setFd at h
+  split at h
+  · cases h
+  · rename_i h1; cases h; exact ⟨by simpa using h1, rfl⟩
+
+theorem migrate_inv {cfg : Cfg} {s : St} {e : Env} {stored crate : Ver} {l : Bool} {s' : St}
+    (h : migrate cfg s e stored crate l = .ok s') :
+    e.sender = cfg.admin ∧ stored.lt crate = true ∧
+    ((stored.lt V090 = true ∧ l = true ∧ s' = { s with fdSet := false }) ∨ (stored.lt V090 = false ∧ s' = s)) := by
+  unfold migrate at h
+  split at h
+  · cases h
+  rename_i h1
+  split at h
+  · cases h
+  rename_i h2
+  split at h
+  · rename_i h3
+    split at h
+    · rename_i h4; cases h
+      exact ⟨by simpa using h1, by simpa using h2, Or.inl ⟨h3, h4, rfl⟩⟩
+    · cases h
+  · rename_i h3; cases h
+    exact ⟨by simpa using h1, by simpa using h2, Or.inr ⟨by simpa using h3, rfl⟩⟩
+
+/-! ### coins received without a bond -/
+
+theorem sumStray_append (d : Nat) (l l' : List StrayRec) :
+    sumStray d (l ++ l') = sumStray d l + sumStray d l' := by
+  induction l with
+  | nil => simp [sumStray]
+  | cons r t ih => simp only [List.cons_append, sumStray, ih]; omega
+
+theorem sumStrayOf_append (a d : Nat) (l l' : List StrayRec) :
+    sumStrayOf a d (l ++ l') = sumStrayOf a d l + sumStrayOf a d l' := by
+  induction l with
+  | nil => simp [sumStrayOf]
+  | cons r t ih => simp only [List.cons_append, sumStrayOf, ih]; omega
+
+theorem coinsAmt_filter_nz (d : Nat) (l : List (Nat × Nat)) :
+    coinsAmt d (l.filter fun c => c.2 != 0) = coinsAmt d l := by
+  induction l with
+  | nil => rfl
+  | cons c t ih =>
+    obtain ⟨e, x⟩ := c
+    by_cases hx : x = 0
+    · subst hx; simp [List.filter_cons, coinsAmt, ih]
+    · have hnz : ((e, x).2 != 0) = true := by simp [hx]
+      simp only [List.filter_cons, hnz, if_true, coinsAmt, ih]
+
+/-- `s1` is `s` after the bank has moved `amt d` of every denom `d` from `a` to the contract and entered
+    it into the stray ledger; nothing else differs -/
+structure Recv (s : St) (a : Nat) (amt : Nat → Nat) (s1 : St) : Prop where
+  period : s1.period = s.period
+  rate : s1.rate = s.rate
+  bonds : s1.bonds = s.bonds
+  unbonds : s1.unbonds = s.unbonds
+  global : s1.global = s.global
+  gset : s1.gset = s.gset
+  fdSet : s1.fdSet = s.fdSet
+  bal : ∀ d, s1.bal d = s.bal d + amt d
+  ubal : ∀ a' d, s1.ubal a' d + (if a' = a then amt d else 0) = s.ubal a' d
+  strays : ∃ l, s1.strays = l ++ s.strays ∧ (∀ d, sumStray d l = amt d) ∧
+    (∀ a' d, sumStrayOf a' d l = if a' = a then amt d else 0)
+
+theorem recv_refl (s : St) (a : Nat) : Recv s a (fun _ => 0) s :=
+  ⟨rfl, rfl, rfl, rfl, rfl, rfl, rfl, fun _ => rfl, fun a' d => by simp,
+    ⟨[], rfl, fun _ => rfl, fun a' d => by simp [sumStrayOf]⟩⟩
+
+theorem receive1_inv {s s1 : St} {a d x : Nat} (h : receive1 s a d x = .ok s1) :
+    x ≤ s.ubal a d ∧ s.bal d + x ≤ U128MAX ∧
+    s1 = { s with
+      bal := fun d' => if d' = d then s.bal d + x else s.bal d'
+      ubal := fun a' d' => if a' = a ∧ d' = d then s.ubal a d - x else s.ubal a' d'
+      strays := ⟨a, d, x⟩ :: s.strays } := by
+  unfold receive1 at h
+  split at h
+  · cases h
+  rename_i h1
+  split at h
+  · cases h
+  · cases h
+  next nbal hb =>
+    obtain ⟨hb1, hb2⟩ := padd_inv hb
+    subst hb1; cases h
+    exact ⟨by omega, hb2, rfl⟩
+
+theorem receiveAll_recv {a : Nat} : ∀ (coins : List (Nat × Nat)) {s s1 : St},
+    receiveAll s a coins = .ok s1 → Recv s a (fun d => coinsAmt d coins) s1
+  | [], s, s1, h => by
+    simp only [receiveAll] at h; cases h
+    exact recv_refl s a
+  | (d, x) :: t, s, s1, h => by
+    simp only [receiveAll] at h
+    split at h
+    · rename_i s0 h0
+      obtain ⟨hx, hmax, rfl⟩ := receive1_inv h0
+      have r := receiveAll_recv t h
+      obtain ⟨l, hl, hl1, hl2⟩ := r.strays
+      refine ⟨r.period, r.rate, r.bonds, r.unbonds, r.global, r.gset, r.fdSet, fun d' => ?_, fun a' d' => ?_,
+        ⟨l ++ [⟨a, d, x⟩], by rw [hl]; simp, fun d' => ?_, fun a' d' => ?_⟩⟩
+      · have := r.bal d'
+        simp only [coinsAmt] at this ⊢
+        by_cases hd : d' = d
+        · subst hd; simp only [if_true] at this ⊢; omega
+        · have hd' : ¬ d = d' := fun h => hd h.symm
+          simp only [hd, hd', if_false] at this ⊢; omega
+      · have := r.ubal a' d'
+        simp only [coinsAmt] at this ⊢
+        by_cases ha : a' = a
+        · subst ha
+          by_cases hd : d' = d
+          · subst hd; simp only [and_self, if_true] at this ⊢; omega
+          · have hd' : ¬ d = d' := fun h => hd h.symm
+            simp only [hd, hd', and_false, if_false, if_true] at this ⊢; omega
+        · simp only [ha, false_and, if_false] at this ⊢; omega
+      · rw [sumStray_append, hl1]
+        simp only [sumStray, coinsAmt]
+        by_cases hd : d = d' <;> simp [hd] <;> omega
+      · rw [sumStrayOf_append, hl2]
+        simp only [sumStrayOf, coinsAmt]
+        by_cases ha : a' = a
+        · subst ha
+          by_cases hd : d = d' <;> simp [hd] <;> omega
+        · have ha' : ¬ a = a' := fun h => ha h.symm
+          simp [ha, ha']
+    · cases h
+    · cases h
+
+theorem receive_recv {s s1 : St} {a : Nat} {coins : List (Nat × Nat)} (h : receive s a coins = .ok s1) :
+    Recv s a (fun d => coinsAmt d coins) s1 := by
+  unfold receive at h
+  split at h
+  · rename_i he
+    cases h
+    have : coins = [] := by simpa using he
+    subst this
+    exact recv_refl s a
+  · simp only at h
+    split at h
+    · cases h
+    · have r := receiveAll_recv _ h
+      have e : (fun d => coinsAmt d (coins.filter fun c => c.2 != 0)) = (fun d => coinsAmt d coins) :=
+        funext fun d => coinsAmt_filter_nz d coins
+      rw [e] at r
+      exact r
+
+theorem withCoins_ok {s s' : St} {a : Nat} {coins : List (Nat × Nat)} {k : St → Res St}
+    (h : withCoins s a coins k = .ok s') : ∃ s1, receive s a coins = .ok s1 ∧ k s1 = .ok s' := by
+  unfold withCoins at h
+  split at h
+  · rename_i s1 h1; exact ⟨s1, h1, h⟩
+  · cases h
+  · cases h
+
+/-- the coins an operation carries to the contract without bonding them -/
+def attached : Op → List (Nat × Nat)
+  | .bond _ _ _ => []
+  | .unbond _ _ c => c
+  | .withdraw _ c => c
+  | .config _ _ c => c
+  | .setFd => []
+  | .send c => c
+  | .migrate _ _ _ => []
+
 /-! ### the ledger invariant -/
 
-/-- contract balance = reported bonded + pending unbondings (per denom); reported bonded per denom
-    = Σ users' bonds; global bonded amount = Σ all bonds -/
+/-- contract balance = reported bonded + pending unbondings + stray coins (per denom); reported bonded
+    per denom = Σ users' bonds; global bonded amount = Σ all bonds -/
 structure Inv (s : St) : Prop where
-  bal_eq : ∀ d, s.bal d = assetAmt d s.global.assets + sumUnb d s.unbonds
+  bal_eq : ∀ d, s.bal d = assetAmt d s.global.assets + sumUnb d s.unbonds + sumStray d s.strays
   asset_eq : ∀ d, assetAmt d s.global.assets = sumBond d s.bonds
   bonded_eq : s.global.bonded = sumBondAll s.bonds
 
@@ -624,13 +796,47 @@ theorem inv_config {cfg : Cfg} {s s' : St} {e : Env} {p r : Option Nat}
   obtain ⟨-, p', r', rfl⟩ := config_inv h
   exact ⟨hI.bal_eq, hI.asset_eq, hI.bonded_eq⟩
 
+theorem inv_recv {s s1 : St} {a : Nat} {amt : Nat → Nat} (hI : Inv s) (r : Recv s a amt s1) : Inv s1 := by
+  obtain ⟨l, hl, hl1, -⟩ := r.strays
+  refine ⟨fun d => ?_, fun d => ?_, ?_⟩
+  · rw [r.bal d, r.global, r.unbonds, hl, sumStray_append, hl1, hI.bal_eq d]; omega
+  · rw [r.global, r.bonds]; exact hI.asset_eq d
+  · rw [r.global, r.bonds]; exact hI.bonded_eq
+
+theorem inv_setFd {cfg : Cfg} {s s' : St} {e : Env} (hI : Inv s) (h : setFd cfg s e = .ok s') : Inv s' := by
+  obtain ⟨-, rfl⟩ := setFd_inv h
+  exact ⟨hI.bal_eq, hI.asset_eq, hI.bonded_eq⟩
+
+theorem inv_migrate {cfg : Cfg} {s s' : St} {e : Env} {st cr : Ver} {l : Bool}
+    (hI : Inv s) (h : migrate cfg s e st cr l = .ok s') : Inv s' := by
+  obtain ⟨-, -, ⟨-, -, rfl⟩ | ⟨-, rfl⟩⟩ := migrate_inv h
+  · exact ⟨hI.bal_eq, hI.asset_eq, hI.bonded_eq⟩
+  · exact hI
+
+/-- `send` is the bank's transfer alone -/
+theorem send_recv {cfg : Cfg} {s s' : St} {e : Env} {c : List (Nat × Nat)} (h : step cfg s e (.send c) = .ok s') :
+    Recv s e.sender (fun d => coinsAmt d c) s' := by
+  have h' : (if c.isEmpty then Res.err else receive s e.sender c) = .ok s' := h
+  split at h'
+  · cases h'
+  · exact receive_recv h'
+
 theorem inv_step {cfg : Cfg} {s s' : St} {e : Env} {op : Op}
     (hI : Inv s) (h : step cfg s e op = .ok s') : Inv s' := by
   cases op with
   | bond a x f => exact inv_bond hI h
-  | unbond a x => exact inv_unbond hI h
-  | withdraw d => exact inv_withdraw hI h
-  | config p r => exact inv_config hI h
+  | unbond a x c =>
+    obtain ⟨s1, hr, hk⟩ := withCoins_ok h
+    exact inv_unbond (inv_recv hI (receive_recv hr)) hk
+  | withdraw d c =>
+    obtain ⟨s1, hr, hk⟩ := withCoins_ok h
+    exact inv_withdraw (inv_recv hI (receive_recv hr)) hk
+  | config p r c =>
+    obtain ⟨s1, hr, hk⟩ := withCoins_ok h
+    exact inv_config (inv_recv hI (receive_recv hr)) hk
+  | setFd => exact inv_setFd hI h
+  | send c => exact inv_recv hI (send_recv h)
+  | migrate st cr l => exact inv_migrate hI h
 
 theorem inv_stepOrStay {cfg : Cfg} {s : St} (eo : Env × Op) (hI : Inv s) : Inv (stepOrStay cfg s eo) := by
   unfold stepOrStay
@@ -646,17 +852,87 @@ theorem inv_reach {cfg : Cfg} (ops : List (Env × Op)) {s : St} (hI : Inv s) : I
 theorem inv_init (period rate : Nat) (ubal : Nat → Nat → Nat) : Inv (init period rate ubal) :=
   ⟨fun _ => rfl, fun _ => rfl, rfl⟩
 
+/-! ### the stray ledger only grows, by exactly what was attached -/
+
+/-- what a successful operation does to the stray ledger: new entries in front, summing per denom (and per
+    sender) to the coins it carried; nothing is removed or altered -/
+def StrayGrow (s s' : St) (a : Nat) (c : List (Nat × Nat)) : Prop :=
+  ∃ l, s'.strays = l ++ s.strays ∧ (∀ d, sumStray d l = coinsAmt d c) ∧
+    (∀ a' d, sumStrayOf a' d l = if a' = a then coinsAmt d c else 0)
+
+theorem strayGrow_nil {s s' : St} {a : Nat} (h : s'.strays = s.strays) : StrayGrow s s' a [] :=
+  ⟨[], by simpa using h, fun _ => rfl, fun a' d => by simp [sumStrayOf, coinsAmt]⟩
+
+theorem strays_step {cfg : Cfg} {s s' : St} {e : Env} {op : Op} (h : step cfg s e op = .ok s') :
+    StrayGrow s s' e.sender (attached op) := by
+  cases op with
+  | bond asset x funds =>
+    obtain ⟨d, nb, ng, -, -, -, -, -, -, -, -, -, rfl⟩ := bond_inv h
+    exact strayGrow_nil rfl
+  | unbond asset x c =>
+    obtain ⟨s1, hr, hk⟩ := withCoins_ok h
+    obtain ⟨d, b, nb, slash, nu, ng, -, -, -, -, -, -, -, -, rfl⟩ := unbond_inv hk
+    exact (receive_recv hr).strays
+  | withdraw d c =>
+    obtain ⟨s1, hr, hk⟩ := withCoins_ok h
+    obtain ⟨-, -, -, -, -, rfl⟩ := withdraw_inv hk
+    exact (receive_recv hr).strays
+  | config p r c =>
+    obtain ⟨s1, hr, hk⟩ := withCoins_ok h
+    obtain ⟨-, p', r', rfl⟩ := config_inv hk
+    exact (receive_recv hr).strays
+  | setFd =>
+    obtain ⟨-, rfl⟩ := setFd_inv h
+    exact strayGrow_nil rfl
+  | send c => exact (send_recv h).strays
+  | migrate st cr l =>
+    obtain ⟨-, -, ⟨-, -, rfl⟩ | ⟨-, rfl⟩⟩ := migrate_inv h
+    · exact strayGrow_nil rfl
+    · exact strayGrow_nil rfl
+
+theorem strays_suffix_stepOrStay {cfg : Cfg} (s : St) (eo : Env × Op) :
+    ∃ l, (stepOrStay cfg s eo).strays = l ++ s.strays := by
+  unfold stepOrStay
+  split
+  · rename_i s' h
+    obtain ⟨l', hl', -, -⟩ := strays_step h
+    exact ⟨l', hl'⟩
+  · exact ⟨[], rfl⟩
+
+theorem strays_suffix_reach {cfg : Cfg} (ops : List (Env × Op)) (s : St) :
+    ∃ l, (reach cfg s ops).strays = l ++ s.strays := by
+  induction ops generalizing s with
+  | nil => exact ⟨[], rfl⟩
+  | cons eo t ih =>
+    obtain ⟨l, hl⟩ := ih (stepOrStay cfg s eo)
+    obtain ⟨l', hl'⟩ := strays_suffix_stepOrStay (cfg := cfg) s eo
+    show ∃ l, (reach cfg (stepOrStay cfg s eo) t).strays = l ++ s.strays
+    exact ⟨l ++ l', by rw [hl, hl', List.append_assoc]⟩
+
 
 /-! ### per-user conservation -/
 
-/-- what belongs to user `a` in denom `d`: wallet + bonded + unbonding -/
+/-- what belongs to user `a` in denom `d`, or did before `a` sent it to the contract unasked:
+    wallet + bonded + unbonding + stray coins sent by `a` -/
 def userTotal (a d : Nat) (s : St) : Nat :=
-  s.ubal a d + sumBondOf a d s.bonds + sumUnbOf a d s.unbonds
+  s.ubal a d + sumBondOf a d s.bonds + sumUnbOf a d s.unbonds + sumStrayOf a d s.strays
 
-theorem userTotal_step {cfg : Cfg} {s s' : St} {e : Env} {op : Op}
-    (h : step cfg s e op = .ok s') (a' d' : Nat) : userTotal a' d' s' = userTotal a' d' s := by
-  cases op with
-  | bond asset x funds =>
+theorem userTotal_recv {s s1 : St} {a : Nat} {amt : Nat → Nat} (r : Recv s a amt s1) (a' d' : Nat) :
+    userTotal a' d' s1 = userTotal a' d' s := by
+  obtain ⟨l, hl, -, hl2⟩ := r.strays
+  have h1 := r.ubal a' d'
+  have h2 := hl2 a' d'
+  simp only [userTotal, r.bonds, r.unbonds, hl, sumStrayOf_append]
+  split at h1 <;> simp_all <;> omega
+
+theorem userTotal_raw {cfg : Cfg} {s s' : St} {e : Env} (a' d' : Nat) :
+    (∀ {asset x funds}, bond cfg s e asset x funds = .ok s' → userTotal a' d' s' = userTotal a' d' s) ∧
+    (∀ {asset x}, unbond s e asset x = .ok s' → userTotal a' d' s' = userTotal a' d' s) ∧
+    (∀ {d}, withdraw s e d = .ok s' → userTotal a' d' s' = userTotal a' d' s) ∧
+    (∀ {p r}, config cfg s e p r = .ok s' → userTotal a' d' s' = userTotal a' d' s) := by
+  refine ⟨?bond, ?unbond, ?withdraw, ?config⟩
+  case bond =>
+    intro asset x funds h
     obtain ⟨d, nb, ng, -, -, -, hx, -, -, hl, hg, -, rfl⟩ := bond_inv h
     obtain ⟨na, nd, nam⟩ := bondLocal_inv hl
     have h3 := sumBondOf_upd nb a' d' s.bonds
@@ -667,7 +943,8 @@ theorem userTotal_step {cfg : Cfg} {s s' : St} {e : Env} {op : Op}
       simp only [and_self, if_true] at h3 ⊢; omega
     · have hk' : ¬ (e.sender = a' ∧ d = d') := fun h => hk ⟨h.1.symm, h.2.symm⟩
       simp only [hk, hk', if_false] at h3 ⊢; omega
-  | unbond asset x =>
+  case unbond =>
+    intro asset x h
     obtain ⟨d, b, nb, slash, nu, ng, -, -, -, hb, hxb, hl, hu, hg, rfl⟩ := unbond_inv h
     obtain ⟨ba, bd⟩ := getBond_some hb
     have hbo := bondedOf_of_get hb
@@ -691,7 +968,8 @@ theorem userTotal_step {cfg : Cfg} {s s' : St} {e : Env} {op : Op}
       · obtain ⟨rfl, rfl⟩ := hk
         simp only [and_self, if_true, decide_true] at h3 h4; omega
       · simp only [hk, if_false, decide_false, Bool.false_eq_true] at h3 h4; omega
-  | withdraw d =>
+  case withdraw =>
+    intro d h
     obtain ⟨-, -, -, hle, -, rfl⟩ := withdraw_inv h
     have h1 := sumUnbOf_withdraw e.sender d e.now s.period a' d' s.unbonds
     simp only [userTotal]
@@ -699,9 +977,32 @@ theorem userTotal_step {cfg : Cfg} {s s' : St} {e : Env} {op : Op}
     · obtain ⟨rfl, rfl⟩ := hk
       simp only [and_self, if_true] at h1 ⊢; omega
     · simp only [hk, if_false] at h1 ⊢; omega
-  | config p r =>
+  case config =>
+    intro p r h
     obtain ⟨-, p', r', rfl⟩ := config_inv h
     rfl
+
+theorem userTotal_step {cfg : Cfg} {s s' : St} {e : Env} {op : Op}
+    (h : step cfg s e op = .ok s') (a' d' : Nat) : userTotal a' d' s' = userTotal a' d' s := by
+  cases op with
+  | bond asset x funds => exact (userTotal_raw a' d').1 h
+  | unbond asset x c =>
+    obtain ⟨s1, hr, hk⟩ := withCoins_ok h
+    rw [(userTotal_raw (cfg := cfg) a' d').2.1 hk, userTotal_recv (receive_recv hr)]
+  | withdraw d c =>
+    obtain ⟨s1, hr, hk⟩ := withCoins_ok h
+    rw [(userTotal_raw (cfg := cfg) a' d').2.2.1 hk, userTotal_recv (receive_recv hr)]
+  | config p r c =>
+    obtain ⟨s1, hr, hk⟩ := withCoins_ok h
+    rw [(userTotal_raw a' d').2.2.2 hk, userTotal_recv (receive_recv hr)]
+  | setFd =>
+    obtain ⟨-, rfl⟩ := setFd_inv h
+    rfl
+  | send c => exact userTotal_recv (send_recv h) a' d'
+  | migrate st cr l =>
+    obtain ⟨-, -, ⟨-, -, rfl⟩ | ⟨-, rfl⟩⟩ := migrate_inv h
+    · rfl
+    · rfl
 
 theorem userTotal_reach {cfg : Cfg} (ops : List (Env × Op)) (s : St) (a d : Nat) :
     userTotal a d (reach cfg s ops) = userTotal a d s := by
@@ -844,10 +1145,22 @@ theorem mem_dedAsset {d x : Nat} {l l' : List (Nat × Nat)} (h : dedAsset d x l 
       · cases h
       · cases h
 
-theorem wf_step {cfg : Cfg} {s s' : St} {e : Env} {op : Op}
-    (hW : Wf cfg s) (h : step cfg s e op = .ok s') : Wf cfg s' := by
-  cases op with
-  | bond asset x funds =>
+theorem wf_recv {cfg : Cfg} {s s1 : St} {a : Nat} {amt : Nat → Nat} (hW : Wf cfg s) (r : Recv s a amt s1) :
+    Wf cfg s1 := by
+  refine ⟨?_, ?_, ?_, ?_⟩
+  · rw [r.bonds]; exact hW.bonds_wl
+  · rw [r.unbonds]; exact hW.unbonds_wl
+  · rw [r.global]; exact hW.assets_wl
+  · rw [r.unbonds]; exact hW.unbonds_pos
+
+theorem wf_raw {cfg : Cfg} {s s' : St} {e : Env} (hW : Wf cfg s) :
+    (∀ {asset x funds}, bond cfg s e asset x funds = .ok s' → Wf cfg s') ∧
+    (∀ {asset x}, unbond s e asset x = .ok s' → Wf cfg s') ∧
+    (∀ {d}, withdraw s e d = .ok s' → Wf cfg s') ∧
+    (∀ {p r}, config cfg s e p r = .ok s' → Wf cfg s') := by
+  refine ⟨?bond, ?unbond, ?withdraw, ?config⟩
+  case bond =>
+    intro asset x funds h
     obtain ⟨d, nb, ng, -, -, -, hx, hwl, -, hl, hg, -, rfl⟩ := bond_inv h
     obtain ⟨na, nd, nam⟩ := bondLocal_inv hl
     obtain ⟨gb, ga⟩ := bondGlobal_inv hg
@@ -858,7 +1171,8 @@ theorem wf_step {cfg : Cfg} {s s' : St} {e : Env} {op : Op}
     · rcases mem_aggAsset ga hp with h | ⟨q, hq, hq1⟩
       · rw [h]; exact hwl
       · rw [← hq1]; exact hW.assets_wl q hq
-  | unbond asset x =>
+  case unbond =>
+    intro asset x h
     obtain ⟨d, b, nb, slash, nu, ng, -, hx0, -, hb, hxb, hl, hu, hg, rfl⟩ := unbond_inv h
     obtain ⟨ba, bd⟩ := getBond_some hb
     obtain ⟨na, nd, nam⟩ := unbondLocal_inv hl
@@ -879,13 +1193,37 @@ theorem wf_step {cfg : Cfg} {s s' : St} {e : Env} {op : Op}
     · rcases mem_addUnb hu (by omega) hr with h | h
       · exact h.2
       · exact hW.unbonds_pos r h
-  | withdraw d =>
+  case withdraw =>
+    intro d h
     obtain ⟨-, -, -, hle, -, rfl⟩ := withdraw_inv h
     exact ⟨hW.bonds_wl, fun r hr => hW.unbonds_wl r (List.mem_filter.mp hr).1, hW.assets_wl,
       fun r hr => hW.unbonds_pos r (List.mem_filter.mp hr).1⟩
-  | config p r =>
+  case config =>
+    intro p r h
     obtain ⟨-, p', r', rfl⟩ := config_inv h
     exact ⟨hW.bonds_wl, hW.unbonds_wl, hW.assets_wl, hW.unbonds_pos⟩
+
+theorem wf_step {cfg : Cfg} {s s' : St} {e : Env} {op : Op}
+    (hW : Wf cfg s) (h : step cfg s e op = .ok s') : Wf cfg s' := by
+  cases op with
+  | bond asset x funds => exact (wf_raw hW).1 h
+  | unbond asset x c =>
+    obtain ⟨s1, hr, hk⟩ := withCoins_ok h
+    exact (wf_raw (cfg := cfg) (wf_recv hW (receive_recv hr))).2.1 hk
+  | withdraw d c =>
+    obtain ⟨s1, hr, hk⟩ := withCoins_ok h
+    exact (wf_raw (cfg := cfg) (wf_recv hW (receive_recv hr))).2.2.1 hk
+  | config p r c =>
+    obtain ⟨s1, hr, hk⟩ := withCoins_ok h
+    exact (wf_raw (wf_recv hW (receive_recv hr))).2.2.2 hk
+  | setFd =>
+    obtain ⟨-, rfl⟩ := setFd_inv h
+    exact ⟨hW.bonds_wl, hW.unbonds_wl, hW.assets_wl, hW.unbonds_pos⟩
+  | send c => exact wf_recv hW (send_recv h)
+  | migrate st cr l =>
+    obtain ⟨-, -, ⟨-, -, rfl⟩ | ⟨-, rfl⟩⟩ := migrate_inv h
+    · exact ⟨hW.bonds_wl, hW.unbonds_wl, hW.assets_wl, hW.unbonds_pos⟩
+    · exact hW
 
 theorem wf_reach {cfg : Cfg} (ops : List (Env × Op)) {s : St} (hW : Wf cfg s) : Wf cfg (reach cfg s ops) := by
   induction ops generalizing s with
@@ -1043,6 +1381,79 @@ theorem withdraw_other_keys {s s' : St} {e : Env} {d : Nat} (h : withdraw s e d 
   rw [recAmt_eq, recAmt_eq]
   simp only at h1 ⊢
   omega
+
+
+/-! ### operations that carry coins: the bank's transfer, then the handler -/
+
+theorem unbond_split {cfg : Cfg} {s s' : St} {e : Env} {asset : AssetRef} {x : Nat} {c : List (Nat × Nat)}
+    (h : step cfg s e (.unbond asset x c) = .ok s') :
+    ∃ s1, Recv s e.sender (fun d => coinsAmt d c) s1 ∧ unbond s1 e asset x = .ok s' := by
+  obtain ⟨s1, hr, hk⟩ := withCoins_ok h
+  exact ⟨s1, receive_recv hr, hk⟩
+
+theorem withdraw_split {cfg : Cfg} {s s' : St} {e : Env} {d : Nat} {c : List (Nat × Nat)}
+    (h : step cfg s e (.withdraw d c) = .ok s') :
+    ∃ s1, Recv s e.sender (fun d' => coinsAmt d' c) s1 ∧ withdraw s1 e d = .ok s' := by
+  obtain ⟨s1, hr, hk⟩ := withCoins_ok h
+  exact ⟨s1, receive_recv hr, hk⟩
+
+theorem config_split {cfg : Cfg} {s s' : St} {e : Env} {p r : Option Nat} {c : List (Nat × Nat)}
+    (h : step cfg s e (.config p r c) = .ok s') :
+    ∃ s1, Recv s e.sender (fun d' => coinsAmt d' c) s1 ∧ config cfg s1 e p r = .ok s' := by
+  obtain ⟨s1, hr, hk⟩ := withCoins_ok h
+  exact ⟨s1, receive_recv hr, hk⟩
+
+theorem recv_ubal_le {s s1 : St} {a : Nat} {amt : Nat → Nat} (r : Recv s a amt s1) (a' d : Nat) :
+    s1.ubal a' d ≤ s.ubal a' d := by
+  have := r.ubal a' d; omega
+
+/-- the refund is computed from the records and the period alone: coins that arrived with the message do
+    not change it -/
+theorem refundOf_recv {s s1 : St} {a : Nat} {amt : Nat → Nat} (r : Recv s a amt s1) (e : Env) (d : Nat) :
+    refundOf s1 e d = refundOf s e d := by
+  unfold refundOf; rw [r.unbonds, r.period]
+
+theorem withdraw_step_effect {cfg : Cfg} {s s' : St} {e : Env} {d : Nat} {c : List (Nat × Nat)}
+    (h : step cfg s e (.withdraw d c) = .ok s') :
+    0 < refundOf s e d ∧
+    s'.ubal e.sender d + coinsAmt d c = s.ubal e.sender d + refundOf s e d ∧
+    s'.bal d + refundOf s e d = s.bal d + coinsAmt d c ∧
+    (∀ a' d', ¬ (a' = e.sender ∧ d' = d) →
+      s'.ubal a' d' + (if a' = e.sender then coinsAmt d' c else 0) = s.ubal a' d') ∧
+    (∀ d', d' ≠ d → s'.bal d' = s.bal d' + coinsAmt d' c) ∧
+    s'.bonds = s.bonds ∧ s'.global = s.global ∧
+    sumUnbOf e.sender d s'.unbonds + refundOf s e d = sumUnbOf e.sender d s.unbonds := by
+  obtain ⟨s1, r, hk⟩ := withdraw_split h
+  obtain ⟨h0, h1, h2, h3, h4, h5, h6, h7⟩ := withdraw_effect hk
+  rw [refundOf_recv r] at h0 h1 h2 h7
+  have ru := r.ubal e.sender d
+  simp only [if_true] at ru
+  have rb := r.bal d
+  refine ⟨h0, by omega, by omega, fun a' d' hk' => ?_, fun d' hd => ?_, h5.trans r.bonds, h6.trans r.global, ?_⟩
+  · rw [h3 a' d' hk']; exact r.ubal a' d'
+  · rw [h4 d' hd]; exact r.bal d'
+  · rw [← r.unbonds]; exact h7
+
+theorem unbond_step_effect {cfg : Cfg} {s s' : St} {e : Env} {d x : Nat} {c : List (Nat × Nat)}
+    (h : step cfg s e (.unbond (.native d) x c) = .ok s') :
+    (∀ a' d' t', recAmt a' d' t' s'.unbonds
+        = recAmt a' d' t' s.unbonds + (if a' = e.sender ∧ d' = d ∧ t' = e.now then x else 0)) ∧
+    (∀ a' d', sumBondOf a' d' s'.bonds + (if a' = e.sender ∧ d' = d then x else 0) = sumBondOf a' d' s.bonds) ∧
+    (∀ d', s'.bal d' = s.bal d' + coinsAmt d' c) ∧
+    (∀ a' d', s'.ubal a' d' + (if a' = e.sender then coinsAmt d' c else 0) = s.ubal a' d') := by
+  obtain ⟨s1, r, hk⟩ := unbond_split h
+  refine ⟨fun a' d' t' => ?_, fun a' d' => ?_, fun d' => ?_, fun a' d' => ?_⟩
+  · rw [unbond_recAmt hk a' d' t', r.unbonds]
+  · have := (unbond_bonded hk a' d').1; rw [r.bonds] at this; exact this
+  · rw [(unbond_bonded hk 0 0).2.1]; exact r.bal d'
+  · rw [(unbond_bonded hk 0 0).2.2]; exact r.ubal a' d'
+
+theorem withdraw_step_unbonds {cfg : Cfg} {s s' : St} {e : Env} {d : Nat} {c : List (Nat × Nat)}
+    (h : step cfg s e (.withdraw d c) = .ok s') :
+    s'.unbonds = s.unbonds.filter fun r => !matured e.sender d e.now s.period s.unbonds r := by
+  obtain ⟨s1, r, hk⟩ := withdraw_split h
+  obtain ⟨-, -, -, -, -, rfl⟩ := withdraw_inv hk
+  simp only [r.unbonds, r.period]
 
 /-! ### a matured record can be withdrawn -/
 
@@ -1233,25 +1644,50 @@ structure Uniq (s : St) : Prop where
   bonds : UniqB s.bonds
   unbonds : s.unbonds.Pairwise DiffKey
 
+theorem uniq_recv {s s1 : St} {a : Nat} {amt : Nat → Nat} (hU : Uniq s) (r : Recv s a amt s1) : Uniq s1 := by
+  refine ⟨?_, ?_⟩
+  · rw [r.bonds]; exact hU.bonds
+  · rw [r.unbonds]; exact hU.unbonds
+
+theorem uniq_unbond {s s' : St} {e : Env} {asset : AssetRef} {x : Nat}
+    (hU : Uniq s) (h : unbond s e asset x = .ok s') : Uniq s' := by
+  obtain ⟨d, b, nb, slash, nu, ng, -, -, -, -, -, -, hu, -, rfl⟩ := unbond_inv h
+  refine ⟨?_, addUnb_pairwise hU.unbonds hu⟩
+  simp only
+  split
+  · exact uniqB_del hU.bonds
+  · exact uniqB_upd hU.bonds
+
+theorem uniq_withdraw {s s' : St} {e : Env} {d : Nat}
+    (hU : Uniq s) (h : withdraw s e d = .ok s') : Uniq s' := by
+  obtain ⟨-, -, -, -, -, rfl⟩ := withdraw_inv h
+  exact ⟨hU.bonds, hU.unbonds.filter _⟩
+
 theorem uniq_step {cfg : Cfg} {s s' : St} {e : Env} {op : Op}
     (hU : Uniq s) (h : step cfg s e op = .ok s') : Uniq s' := by
   cases op with
   | bond asset x funds =>
     obtain ⟨d, nb, ng, -, -, -, -, -, -, -, -, -, rfl⟩ := bond_inv h
     exact ⟨uniqB_upd hU.bonds, hU.unbonds⟩
-  | unbond asset x =>
-    obtain ⟨d, b, nb, slash, nu, ng, -, -, -, -, -, -, hu, -, rfl⟩ := unbond_inv h
-    refine ⟨?_, addUnb_pairwise hU.unbonds hu⟩
-    simp only
-    split
-    · exact uniqB_del hU.bonds
-    · exact uniqB_upd hU.bonds
-  | withdraw d =>
-    obtain ⟨-, -, -, -, -, rfl⟩ := withdraw_inv h
-    exact ⟨hU.bonds, hU.unbonds.filter _⟩
-  | config p r =>
-    obtain ⟨-, p', r', rfl⟩ := config_inv h
+  | unbond asset x c =>
+    obtain ⟨s1, hr, hk⟩ := withCoins_ok h
+    exact uniq_unbond (uniq_recv hU (receive_recv hr)) hk
+  | withdraw d c =>
+    obtain ⟨s1, hr, hk⟩ := withCoins_ok h
+    exact uniq_withdraw (uniq_recv hU (receive_recv hr)) hk
+  | config p r c =>
+    obtain ⟨s1, hr, hk⟩ := withCoins_ok h
+    obtain ⟨-, p', r', rfl⟩ := config_inv hk
+    have := uniq_recv hU (receive_recv hr)
+    exact ⟨this.bonds, this.unbonds⟩
+  | setFd =>
+    obtain ⟨-, rfl⟩ := setFd_inv h
     exact ⟨hU.bonds, hU.unbonds⟩
+  | send c => exact uniq_recv hU (send_recv h)
+  | migrate st cr l =>
+    obtain ⟨-, -, ⟨-, -, rfl⟩ | ⟨-, rfl⟩⟩ := migrate_inv h
+    · exact ⟨hU.bonds, hU.unbonds⟩
+    · exact hU
 
 theorem uniq_reach {cfg : Cfg} (ops : List (Env × Op)) {s : St} (hU : Uniq s) : Uniq (reach cfg s ops) := by
   induction ops generalizing s with
